@@ -102,6 +102,11 @@ fn one_pair(rep: &mut Report, s: &str, a: usize, b: usize) {
 }
 
 fn indices(len: usize) -> Vec<usize> {
+    if cfg!(miri) {
+        let mut v: Vec<usize> = (0..=len + 1).collect();
+        v.push(usize::MAX);
+        return v;
+    }
     let mut v: Vec<usize> = (0..=len + 2).collect();
     v.extend_from_slice(&[isize::MAX as usize, isize::MAX as usize + 1, usize::MAX - 1, usize::MAX]);
     v
@@ -126,14 +131,14 @@ fn one_string(s: &String, rep: &mut Report) {
 }
 
 pub fn run(tier: Tier, rep: &mut Report) -> (String, String) {
-    let n = tier.pick(4, 5, 2);
+    let n = tier.pick(4, 5, 1);
     let strings = strings_over(ATOMS, n);
     let r = par_each(&strings, n_threads(tier), one_string);
     rep.merge(r);
     // family 2: every char of a boundary-complete set, alone and between ASCII neighbours,
     // so that every UTF-8 lead byte and every continuation byte value 0x80..=0xBF occurs at every role
-    let chars = crate::common::char_set(tier);
-    let ctx: Vec<String> = chars.iter().flat_map(|c| [c.to_string(), format!("a{c}b"), format!("{c}{c}")]).collect();
+    let chars = if tier == Tier::Miri { vec!['ñ', '\u{7FF}', '\u{800}', '€', '\u{FFFF}', '😀', '\u{10FFFF}'] } else { crate::common::char_set(tier) };
+    let ctx: Vec<String> = chars.iter().flat_map(|c| if tier == Tier::Miri { vec![format!("a{c}b")] } else { vec![c.to_string(), format!("a{c}b"), format!("{c}{c}")] }).collect();
     let nctx = ctx.len();
     let r = par_each(&ctx, n_threads(tier), one_string);
     rep.merge(r);
